@@ -231,3 +231,40 @@ def write_evidence(prop, tier, seed, level, coverage, wall_s, violations, assump
 
 def short_hash(obj):
     return hashlib.sha256(json.dumps(obj, sort_keys=True, ensure_ascii=False).encode()).hexdigest()[:12]
+
+
+_ENV_READS = None
+
+
+def discovered_env_reads():
+    """Run-time environment reads of the working tree: [(NAME, [string literals seen within the next 4 lines])].
+    The environment is a seam of the process boundary; which variables matter is taken from the code under test, not
+    guessed (compile-time `env!` is not a run-time read and is skipped; doc comments too)."""
+    global _ENV_READS
+    if _ENV_READS is not None:
+        return _ENV_READS
+    import re
+    found = {}
+    rx = re.compile(r'(?<![A-Za-z_!])(?:var|var_os)\s*\(\s*"([A-Za-z_][A-Za-z0-9_]*)"')
+    for sub in ("runtime/src", "codegen/src", "cli/src", "macro/src"):
+        for root, dirs, files in os.walk(os.path.join(REPO, sub)):
+            dirs.sort()
+            for fn in sorted(files):
+                if not fn.endswith(".rs"):
+                    continue
+                try:
+                    lines = open(os.path.join(root, fn), errors="replace").read().splitlines()
+                except OSError:
+                    continue
+                for i, l in enumerate(lines):
+                    if l.lstrip().startswith("//"):
+                        continue
+                    for m in rx.finditer(l):
+                        lits = re.findall(r'"([^"\\]{0,24})"', " ".join(lines[i:i + 5]))
+                        found.setdefault(m.group(1), set()).update(x for x in lits if x != m.group(1))
+    _ENV_READS = sorted((k, sorted(v)) for k, v in found.items())
+    return _ENV_READS
+
+
+def discovered_env_value(rng, lits):
+    return rng.choice(list(lits) + ["1", "0", "true", "false", "", "yes", "3"])
